@@ -29,6 +29,15 @@ def rule_directed(rng, quick):
                 ('un', 'not', ('bin', '=', r1, wide[0])), ('bin', 'and', ('bin', '=', r1, wide[1]), ('bin', 'and', ('lit', 'True', True), ('bin', '!=', r1, wide[2]))),
                 ('quant', 'all', 'i', ('set', [r1, int_lit(1)]), ('bin', 'and', ('bin', '=', ('var', 'i'), r1), ('bin', '=', r1, wide[3]))),
                 ('bin', 'implies', ('bin', '=', r1, wide[3]), ('bin', 'and', ('bin', '=', r1, wide[4]), ('lit', 'True', True)))]
+    # a wide-typed reference where an operator leaves its type wide (`in`, `=`, `!=`), under every connective the rewriters descend
+    # through: a rewrite that builds a narrower parent around that very node would narrow the caller's object
+    for r1 in wide:
+        for rng_lit in (('range', int_lit(0), int_lit(10), False, False), ('range', int_lit(1), ('field', ('this',), 'c'), True, True),
+                        ('set', [int_lit(1), int_lit(2)]), ('field', ('this',), 'xs')):
+            m = ('bin', 'in', r1, rng_lit)
+            fam += [m, ('un', 'not', m), ('bin', 'and', m, ('field', ('this',), 'b')), ('bin', 'or', ('field', ('this',), 'b'), m),
+                    ('bin', 'implies', m, ('field', ('this',), 'b')), ('bin', 'iff', ('field', ('this',), 'b'), m),
+                    ('un', 'not', ('bin', 'or', m, ('field', ('this',), 'b')))]
     g1, g2, g3 = small_grammar(rng, 40 if quick else 400)
     fam += rng.sample(g1, min(len(g1), 150 if quick else 2000)) + rng.sample(g2, min(len(g2), 150 if quick else 3000)) + g3
     return fam
